@@ -5,7 +5,7 @@ from ..translate import arith, cellctor, cellentry
 SPEC = dict(
     manifest=dict(
         category='proof',
-        text='Lean proves for EVERY tree of ordinary cells (all bit lengths, ref counts, shapes; SHA-256 abstract) that the model of Cell.__init__ is constructible iff depth<=1023 and reports the textbook representation hash/depth at every level, that get_representation hashes to the cached hash, that ==/__hash__ coincide with hash equality, and that the standard representation is injective (c01_repr_injective: d1 d2 ++ padded data ++ child depths ++ child hashes determines the BIT STRING -- the completion-tag padding is invertible given d2, Proofs/Pad.lean -- the reference count and every child depth field and hash; c01_hash_binding: equal hashes without a collision on the two representations mean equal bits and child hashes). The model is tied to the code by differential correspondence through 12 construction routes. The integer arithmetic the model rests on (descriptors, level-mask functions, depth limit, pruned offsets) is additionally REGENERATED from the Python source on every run and proved equal to the model/spec for all inputs (c0x_src_* theorems). The WHOLE constructor is regenerated as well: Cell.__init__ with resolve_mask, the calculate_hashes loop (hash-index bookkeeping, the three raise points, child depths and hashes fed to the hash object), get_descriptors, the completion-tag padding of get_data_bytes, get_hash/get_depth of the children and NullCell.__init__ are re-translated into Generated/CellCtor.lean on every run (harness/translate/pyobj.py + cellctor.py, validated against the running library on about 480 cells each time the source or translator changes), and Lean proves for ALL cell types, bit strings and child infos that the regenerated constructor equals the hand model Model.construct including Cell.hash, the descriptor bytes and the padded data (c01_src_constructor; Proofs/SrcCellCtor.lean), so c01_hash_depth / c01_constructible_iff hold for what the source computes (c01_src_hash_depth). A source change inside the translatable subset breaks this proof and the check then evaluates regenerated constructor vs model on boundary DAGs to hand the differing cells to the oracle; outside the subset the tie is reported lost and the sampled correspondence decides. The OBSERVERS are regenerated too (harness/translate/cellentry.py -> Generated/CellEntry.lean, same program as the constructor, validated against the library on the same ~480 cells): Cell.get_representation (descriptors ++ data or the previous hash ++ child depths ++ child hashes, the Merkle level shift, one loop over the references), calculate_representation_hash, the property hash, __eq__ and __hash__ are proved equal to Model.representation / CellInfo.pyEq / pyHash for ALL infos and child infos (c01_src_observers), and the three statements are restated about the regenerated code: c01_src_repr_agrees (for every ordinary cell of depth <= 1023 the regenerated calculate_representation_hash on the attributes the regenerated constructor leaves behind returns the cached Cell.hash), c01_src_eq_iff_hash, c01_src_pyhash_iff_hash (neither raises; True / equal dict keys exactly when the hashes are equal). A change of these lines inside the subset breaks a proof; the check then lets Lean compare regenerated vs model per cell (cellentry.diff_dags) and hands the differing cells to the oracle (representation hash vs spec, == / hash() / dict lookup over all pairs).',
+        text='Lean proves for EVERY tree of ordinary cells (all bit lengths, ref counts, shapes; SHA-256 abstract) that the model of Cell.__init__ is constructible iff depth<=1023 and reports the textbook representation hash/depth at every level, that get_representation hashes to the cached hash, that ==/__hash__ coincide with hash equality, and that the standard representation is injective (c01_repr_injective: d1 d2 ++ padded data ++ child depths ++ child hashes determines the BIT STRING -- the completion-tag padding is invertible given d2, Proofs/Pad.lean -- the reference count and every child depth field and hash; c01_hash_binding: equal hashes without a collision on the two representations mean equal bits and child hashes). The model is tied to the code by differential correspondence through 12 construction routes. The integer arithmetic the model rests on (descriptors, level-mask functions, depth limit, pruned offsets) is additionally REGENERATED from the Python source on every run and proved equal to the model/spec for all inputs (c0x_src_* theorems). The WHOLE constructor is regenerated as well: Cell.__init__ with resolve_mask, the calculate_hashes loop (hash-index bookkeeping, the three raise points, child depths and hashes fed to the hash object), get_descriptors, the completion-tag padding of get_data_bytes, get_hash/get_depth of the children and NullCell.__init__ are re-translated into Generated/CellCtor.lean on every run (harness/translate/pyobj.py + cellctor.py, validated against the running library on about 480 cells each time the source or translator changes), and Lean proves for ALL cell types, bit strings and child infos that the regenerated constructor equals the hand model Model.construct including Cell.hash, the descriptor bytes and the padded data (c01_src_constructor; Proofs/SrcCellCtor.lean), so c01_hash_depth / c01_constructible_iff hold for what the source computes (c01_src_hash_depth). A source change inside the translatable subset breaks this proof and the check then evaluates regenerated constructor vs model on boundary DAGs to hand the differing cells to the oracle; outside the subset the tie is reported lost and the sampled correspondence decides. The OBSERVERS are regenerated too (harness/translate/cellentry.py -> Generated/CellEntry.lean, same program as the constructor, validated against the library on the same ~480 cells): Cell.get_representation (descriptors ++ data or the previous hash ++ child depths ++ child hashes, the Merkle level shift, one loop over the references), calculate_representation_hash, the property hash, __eq__ and __hash__ are proved equal to Model.representation / CellInfo.pyEq / pyHash for ALL infos and child infos (c01_src_observers), and the three statements are restated about the regenerated code: c01_src_repr_agrees (for every ordinary cell of depth <= 1023 the regenerated calculate_representation_hash on the attributes the regenerated constructor leaves behind returns the cached Cell.hash), c01_src_eq_iff_hash, c01_src_pyhash_iff_hash (neither raises; True / equal dict keys exactly when the hashes are equal). A change of these lines inside the subset breaks a proof; the check then lets Lean compare regenerated vs model per cell (cellentry.diff_dags) and hands the differing cells to the oracle (representation hash vs spec, == / hash() / dict lookup over all pairs). Round 10: every run also builds (a) sibling sub-DAGs whose depths are chosen independently over both bytes of the 2-byte depth field a parent hashes (one shared spine of depth 0..1023, every ordered pair of 18 depth points, 2-4 siblings of byte-wise independent depths, such cells as siblings again, children at the limit; the same with pruned branches that STORE their depth) and (b) a tree next to its pruned / differently pruned twins, where ==, !=, hash(), dict and set and list membership of every pair are judged by the SPEC representation hashes; c01_twins_unequal proves for all infos that cells of different level mask (a tree vs. its pruned twin) are unequal and have different dict keys unless H collides on their two representations.',
         level_note='Trusted: Lean kernel (propext, Classical.choice, Quot.sound), the source translators pyarith.py / pyobj.py with their declared interface (attribute types, a child cell = its CellInfo, sha256 streaming = hash of the concatenation, bitarray/int built-ins of PyObj.lean; a property read = the call of its body; `other` in __eq__ is a constructed cell whose _hash is the hash of the model; differentially validated against CPython), Model/Cell.lean as a hand transcription of cell.py/exotic.py (for the constructor, get_representation, __eq__, __hash__ now proved equal to the regenerated source, c01_src_constructor / c01_src_observers; elsewhere checked by sampled correspondence: ~29k node observations per quick run incl. every bit-length class and depth 1022-1025 chains), bitarray/hashlib semantics, the Python harness.',
         technique='Lean 4 refinement proof (hand model) + constructor, get_representation, __eq__, __hash__ regenerated from the source and proved equal to the model for all inputs + differential correspondence with the library',
     ),
@@ -16,6 +16,7 @@ SPEC = dict(
     lean_targets=['TonVerif.Proofs.SrcCellEntry'],
     design_ref='DESIGN.md §6 C01',
     rule='ordinary-cell DAGs: every bit length class (all 1024 lengths in thorough), 0-4 refs, sharing, chains to depth 1022/1023/1024; '
+         'siblings with byte-wise independent depths over a shared spine / stored in pruned branches; a tree next to its pruned twins (all pairs, 10 identity observers); '
          'each node observed through routes ctor/plain-bitarray/builder/boc/copy/slice/to_builder; distinct = distinct (dag, node, route); '
          'non-trivial = node has bits or refs',
     trusted_base=['Model/Cell.lean mirrors Cell.__init__/calculate_hashes/get_hash/get_depth/get_representation by hand (each proved equal to its regenerated counterpart: c01_src_constructor, c01_src_observers)',
@@ -188,7 +189,8 @@ def identity_pairs(ctx, nodes, tag, pairs=None, spec=None):
                     got = f'raised {type(e).__name__}'
                 if got is not want and len(ctx.failures) < n0 + 6:
                     sub, new = G.sub_dag(nodes, [i, j])
-                    ctx.fail(f'eq:{name}', f'{name} says {got} for two cells ({cls}, second operand {how}) whose representation hashes are '
+                    # kind `eq`: an observable collision / separation of two cells; kind `pyhash`: only the hash values agree / differ
+                    ctx.fail(f'{"pyhash" if "hash" in name else "eq"}:{name}', f'{name} says {got} for two cells ({cls}, second operand {how}) whose representation hashes are '
                              f'{"equal" if want else "different"}', {'dag': [list(n) for n in sub], 'pair': [new[i], new[j]], 'tag': tag},
                              {'observer': name, 'answer': got, 'a.hash': a.hash.hex(), 'b.hash': b.hash.hex(),
                               'a.get_hash(0)': a.get_hash(0).hex(), 'b.get_hash(0)': b.get_hash(0).hex()},
@@ -211,10 +213,11 @@ def check_shared(ctx, nodes, focus, tag, routes):
     spec = G.spec_dag(nodes)
     model = G.parse_dag_answer(ctx.model.run([G.dag_line(nodes)])[0]) if ctx.driver_ok else None
     fset = set(focus)
+    n0 = len(ctx.failures)
     for route in routes:
         libs = G.lib_build(nodes, route)
         for i, c in enumerate(libs):
-            if len(ctx.failures) >= 40:
+            if len(ctx.failures) >= n0 + 8:          # leave room for the failures of the other classes (core keeps 50)
                 return spec
             s = spec[i]
             ctx.case((tag, route, i if s is None or not s.valid else s.H[4]), nontrivial=True)
@@ -393,12 +396,14 @@ def pruned_twins(ctx):
     for t in range(ctx.n(24, 200)):
         nodes, roots, what = G.pruned_twins(rng, exotic=t % 3 == 2)
         tag = f'pruned-twins{t}'
-        spec = check_dag(ctx, nodes, tag, derive=(t % 4 == 0), routes=[rng.choice(ROUTES)])
+        spec = G.spec_dag(nodes)
         if len(nodes) <= 45:
             identity_pairs(ctx, nodes, tag, spec=spec)
         else:
             top = list(dict.fromkeys(roots)) + list(range(len(nodes) - 3, len(nodes)))
             identity_pairs(ctx, nodes, tag, pairs=[(i, j) for i in top for j in range(len(nodes))] + [(j, i) for i in top for j in range(len(nodes))], spec=spec)
+        if len(ctx.failures) < 44:
+            check_dag(ctx, nodes, tag, derive=(t % 4 == 0), routes=[rng.choice(ROUTES)])
 
 
 def replay(ctx, payload):
